@@ -264,6 +264,11 @@ def generate(seed: int, run: int, tier: str) -> dict:
         for op in ops:
             if op["op"] in ("generate", "virtual"):
                 op["locale"] = "ascii"
+    rng2 = core.rng_for(seed, PROP, run, "gen2")
+    if style in ("pages", "virtual") and rng2.random() < float(os.environ.get("VERIF_C19_NOCACHE_P", "0.1")):
+        # environment fault: the generating process runs with SymPy's cache switched off (SYMPY_USE_CACHE=no);
+        # only page-order schedules and synthetic trees (a sub-tree generation would take minutes without the cache)
+        env = {"hashseed": env["hashseed"], "cache": 1000, "environ": {"SYMPY_USE_CACHE": "no"}}
     return _job(seed, run, env, ops)
 
 
@@ -1053,6 +1058,9 @@ def child_run(job: dict) -> dict:  # pylint: disable=too-many-branches,too-many-
     vios: list = []
     events = []
     faults = {"list_shuffle": 0, "stale_output": 0, "jump": 0, "clear_cache": 0, "import_before": 0, "repeat": 0}
+    from .c14_vectors import _cache_really_off  # pylint: disable=import-outside-toplevel
+    if _cache_really_off():
+        faults["sympy_cache_off_run"] = 1
     probes: dict = {}
     out_pages = {}
     digests = {}
